@@ -54,8 +54,24 @@ def observer(got, pred, sp, call, sg, prog, ctx, part):
                    own=part['_own'], prefixes=part['_prefixes'])
 
     claims = {}
-    for traversal in ('recursive', 'iterative'):
-        e = got if traversal == 'recursive' else fresh(ctx, ctx.cur_calls)
+    for traversal in ('recursive', 'iterative', 'children-first'):
+        if traversal == 'children-first':
+            # every intermediate object is classified before its parent: per-node cached answers feed the parent
+            objs = progjudge.build_base(ctx)
+            nb = len(ctx.base_calls)
+            e = None
+            for i, c in enumerate(ctx.cur_calls):
+                e = apiexec.execute(c, objs)
+                objs[nb + i + 1] = e
+                for o in list(objs.values()):
+                    if hasattr(o, 'degree') and hasattr(o, 'get_variables') and not isinstance(o, (list, tuple)):
+                        try:
+                            o.degree
+                            o.is_linear()
+                        except Exception:
+                            pass
+        else:
+            e = got if traversal == 'recursive' else fresh(ctx, ctx.cur_calls)
         saved = analysis._RECURSION_THRESHOLD
         try:
             if traversal == 'iterative':
